@@ -17,7 +17,7 @@ TIERS = {
     # DESIGN.md asks for 16 x (8000 + 1000); a value costs ~30 ms (4 codecs + monitors) and a
     # history ~0.6 s (two file systems, every path re-read after every operation), so the
     # counts are scaled to stay below 10 min per shard.
-    'thorough': dict(shards=16, values=5000, histories=400, steps=50),
+    'thorough': dict(shards=16, values=5000, histories=400, steps=50, timeout_s=9000),
 }
 RULE = ('value case = one described serializable value (primitives incl. special floats and '
         'hostile strings, tuples, plain/symbolic lists and dicts with str and int keys, '
